@@ -752,7 +752,12 @@ func ZZHarnessJustifiedProposal() {
 	}
 	q := int(r.share.Quorum)
 	leader := zzLeader(r.share, height, round)
-	shape := zzChoose("shape", 3)
+	shape := 0
+	if sp := int(zzParam("SHAPE")); sp > 0 {
+		shape = sp - 1
+	} else {
+		shape = zzChoose("shape", 3)
+	}
 	if shape == 2 && round < 3 {
 		shape = 1
 	}
